@@ -104,11 +104,13 @@ CloseJustified(p) ==
 LastDial(d) == dialLog[d][Len(dialLog[d])]
 
 \* reconn value recorded by the first snapshot after line l (binds the random backoff factor)
-NextSnapRc ==
-  LET js == {j \in (l+1)..NLines : Log[j].k = "snap" /\ Has(Log[j], "rc")}
-      rs == {j \in (l+1)..NLines : Log[j].k = "reset"}
-  IN IF js = {} THEN -1
-     ELSE LET j == MinSet(js) IN IF \E r \in rs : r < j THEN -1 ELSE Log[j].rc
+RECURSIVE SnapRcFrom(_)
+SnapRcFrom(j) ==     \* walks forward to the first snapshot of this trace; cost independent of the batch size
+  IF j > NLines THEN -1
+  ELSE IF Log[j].k = "reset" THEN -1
+  ELSE IF Log[j].k = "snap" /\ Has(Log[j], "rc") THEN Log[j].rc
+  ELSE SnapRcFrom(j + 1)
+NextSnapRc == SnapRcFrom(l + 1)
 
 UNCH_T == UNCHANGED tvars
 
